@@ -128,8 +128,14 @@ CHECKS = {
              'partitions: re-opening the file gives exactly the state the session holds (header, descriptors, new master hashes, '
              'DPFS selection), for DIFF and for one- and two-partition DISA; the regularity conditions are part of the invariant '
              'and proved to survive every operation; ingredients: descriptor round trip (C20_partdesc), the in-partition frame of '
-             'a write, the header/descriptor/CMAC update.  Not a theorem (decided by correspondence + reference reader): cache '
-             'soundness after a write in the same session.',
+             'a write, the header/descriptor/CMAC update; (6) same session (C18_session, C18_session_write, C18_session_read): on a '
+             'regular container whose hash tree verifies completely (allValidB, decidable; about half of the generated images, the '
+             'others carry uninitialised blocks on purpose) every write keeps the tree fully verifying and every verification '
+             'cache sound although only the entries of touched blocks are dropped (verdicts of untouched blocks cannot change: '
+             'absWrite_stable), so each read returns the slice of the current view at the reader position and each write turns '
+             'the view into the old view with the clamped data laid over it - the view behaves like an ordinary file.  Not a '
+             'theorem (decided by correspondence + reference reader): same-session cache behaviour on trees with uninitialised or '
+             'invalid blocks, where a verdict can legitimately change from "uninitialised" to "valid" under a cached entry.',
         note=COMMON_NOTE + 'SHA-256/AES-CMAC executable in the driver, parameters in theorems; partial updates after an '
              'IndexError inside a write are not modelled (history ends there).',
         technique='Lean 4 proof (refinement to an abstract hash tree, invariants) + model/implementation correspondence',
